@@ -268,9 +268,86 @@ def run_sequence(item, acc):
                                {'sequence': common.jsonable(item)})
 
 
+# ----------------------------------------------------------------------------- contact map files
+
+NUMBERINGS = {
+    'from-1': [('A', 1), ('A', 2), ('A', 3), ('A', 4)],
+    'from-3': [('A', 3), ('A', 4), ('A', 5), ('A', 6)],
+    'gap': [('A', 1), ('A', 2), ('A', 7), ('A', 8)],
+    'two-chains-restart': [('A', 1), ('A', 2), ('B', 1), ('B', 2)],
+    'descending': [('A', 9), ('A', 8), ('A', 7), ('A', 6)],
+}
+FLAGS = [('1', '0', True), ('1', '1', True), ('0', '1', True), ('0', '0', False)]     # OV, rCSU, taken?
+
+
+def map_file_case(item, acc):
+    """A contact map FILE in the published 18-column layout: the residues of a contact are the I(PDB) columns (with their chain
+    columns), not the running residue indices I1/I2; a line counts when OV = 1, or OV = 0 and rCSU = 1."""
+    import os
+    import tempfile
+    import vermouth
+    from vermouth.rcsu.contact_map import read_go_map
+    numbering, pairs_bits, flag_shift, noise = item
+    residues = NUMBERINGS[numbering]
+    n = len(residues)
+    directed = [(i, j) for i in range(n) for j in range(n) if i != j]
+    lines = ['', 'Residue-Residue Contacts', 'ID  I1 AA C I(PDB)  I2 AA C I(PDB)  DCA  CMs  rCSU Count Model']
+    expected = []
+    count = 0
+    for idx, (i, j) in enumerate(directed):
+        if not pairs_bits >> idx & 1:
+            continue
+        ov, rcsu, taken = FLAGS[(idx + flag_shift) % len(FLAGS)]
+        count += 1
+        (ci, ri), (cj, rj) = residues[i], residues[j]
+        lines.append('R %5d %4d ALA %s %4d %4d GLY %s %4d %9.4f %s 1 0 %s %5d %5d 0' % (count, i + 1, ci, ri, j + 1, cj, rj, 5.5 + idx, ov, rcsu, 3, 7))
+        if taken:
+            expected.append((ri, ci, rj, cj))
+    if noise:
+        lines.insert(3, 'R 1 2 3')                       # not 18 columns: not a contact line
+        lines.append('X' + lines[-1][1:] if count else 'X 1')   # first column is not R
+    case = {'layer': 'map-file', 'numbering': numbering, 'pairs': pairs_bits, 'flag_shift': flag_shift, 'noise': noise}
+    base = tempfile.mkdtemp(prefix='verif_c18m_', dir='/dev/shm' if os.path.isdir('/dev/shm') else None)
+    path = os.path.join(base, 'contacts.out')
+    with open(path, 'w') as handle:
+        handle.write('\n'.join(lines) + '\n')
+    system = vermouth.System()
+    try:
+        read_go_map(system, path)
+        got = [tuple(c) for c in system.go_params['go_map'][-1]]
+    except IOError:
+        got = 'empty'
+    except Exception as err:   # pylint: disable=broad-except
+        got = 'exception %r' % (err,)
+    finally:
+        import shutil
+        shutil.rmtree(base, ignore_errors=True)
+    want = expected if expected else 'empty'
+    acc.case(nontrivial=numbering != 'from-1' and bool(expected), outcome=('mapfile', numbering, len(expected), got == want))
+    if got != want:
+        acc.violation('c18:contact-map-file', 'numbering %s: the file lists contacts %r (I(PDB) and chain columns of the lines with OV=1 or rCSU=1); '
+                      'read_go_map gave %r' % (numbering, want, got), case)
+
+
+def map_file_items(tier):
+    n_directed = 12
+    bit_sets = [0, 1, 0b11, 0b101010101010, 0b111111111111, 0b100000000001, 0b000111000111]
+    if tier != 'quick':
+        bit_sets = list(range(0, 1 << n_directed, 7))
+    for numbering in NUMBERINGS:
+        for bits in bit_sets:
+            for shift in range(len(FLAGS)):
+                for noise in (False, True):
+                    yield numbering, bits, shift, noise
+
+
 def work(task):
     common.bind_repo()
     acc = Acc()
+    if task[0] == 'map-file':
+        for item in task[1]:
+            map_file_case(item, acc)
+        return acc
     if task[0] == 'sequence':
         # the pipeline object is a module-level instance: several systems in one process, each judged on its own
         for item in task[1]:
@@ -335,11 +412,19 @@ def run(ctx):
     for part in common.pmap(work, [('sequence', [item]) for item in seqs], fresh=True):
         acc += part
     ctx.layer('call-sequences', acc)
+    items = list(map_file_items(ctx.tier))
+    acc = Acc()
+    for part in common.pmap(work, [('map-file', chunk) for chunk in common.chunked(items, max(1, len(items) // 32))]):
+        acc += part
+    ctx.layer('contact-map-files', acc)
 
 
 def replay(case):
     common.bind_repo()
     acc = Acc()
+    if case.get('layer') == 'map-file':
+        map_file_case((case['numbering'], case['pairs'], case['flag_shift'], case['noise']), acc)
+        return [(s_, d) for s_, d, _ in acc.violations]
     if 'sequence' in case:
         it = case['sequence']
 
